@@ -15,6 +15,10 @@ Semantics in words
   declared fields (recursively through arrays, typed maps and struct members);
 * `map call`: one invocation per index / key of the (first) split collection,
   the outputs are the array / typed map of the per-element outputs;
+* a `disabled` control that is JSON null (a null stage output) counts as "not disabled" — what the
+  code does too (`Fork.disabled`: unmarshalling `null` into a bool leaves false); a control bound to
+  an output of a call that may itself be disabled is rejected by the compiler (observed: family
+  null-control);
 * a disabled call, and a mapped call over an empty / null collection, runs
   nothing and every output is `dnull` (a distinguished null which an
   implementation may render as null, an empty collection or a collection of nulls);
@@ -553,6 +557,23 @@ def Exp.cleanList : List Exp → Bool
 def Exp.cleanFields : List (String × Exp) → Bool
   | [] => true
   | (_, e) :: es => Exp.clean e && Exp.cleanFields es
+end
+
+mutual
+/-- a reference-free JSON literal: what the compiler accepts where an untyped `map` is expected
+(`BuiltinType.IsValidExpression`, case `*MapExp`: "literal cannot be assigned to untyped map:
+contains reference") -/
+def Exp.isJson : Exp → Bool
+  | .lit _ => true
+  | .arr xs => Exp.isJsonList xs
+  | .map kvs => Exp.isJsonFields kvs
+  | _ => false
+def Exp.isJsonList : List Exp → Bool
+  | [] => true
+  | e :: es => Exp.isJson e && Exp.isJsonList es
+def Exp.isJsonFields : List (String × Exp) → Bool
+  | [] => true
+  | (_, e) :: es => Exp.isJson e && Exp.isJsonFields es
 end
 
 /-! ## auxiliary notions used to state the meta-theorems (Props/C01.lean) -/
